@@ -1,6 +1,7 @@
 package main
 
 import (
+	"github.com/dsnet/compress/brotli"
 	"bufio"
 	"flag"
 	"fmt"
@@ -18,7 +19,15 @@ func main() {
 	corpus := flag.String("corpus", "", "file of input scenario lines that run first")
 	input := flag.String("input", "", "replay: run only the input lines of this file")
 	list := flag.Bool("list", false, "list families")
+	dumpDict := flag.String("dump-brotli-dict", "", "write the static dictionary of /repo/brotli to this file and exit")
 	flag.Parse()
+	if *dumpDict != "" {
+		if err := os.WriteFile(*dumpDict, brotli.VerifStaticDict(), 0o644); err != nil {
+			fmt.Fprintln(os.Stderr, err)
+			os.Exit(2)
+		}
+		return
+	}
 	if *list {
 		for k, f := range families {
 			fmt.Printf("%s\t%s\n", k, f.Rule)
